@@ -1,0 +1,179 @@
+//go:build verif
+// +build verif
+
+// Contracts for package raft (build tag verif only; no executable code).
+package raft
+
+import (
+	"github.com/marekgalovic/anndb/cluster"
+	uuid "github.com/satori/go.uuid"
+
+	etcdRaft "github.com/coreos/etcd/raft"
+	"github.com/coreos/etcd/raft/raftpb"
+	"github.com/marekgalovic/anndb/storage/wal"
+)
+
+var _ etcdRaft.Node
+var _ raftpb.Entry
+var _ wal.WAL
+var _ uuid.UUID
+var _ *cluster.Conn
+
+// ---------------------------------------------------------------------------------------------
+// Assumed contracts of the dependencies the ready loop talks to. etcd/raft's own safety is assumed under the host
+// obligations of raft/doc.go, which are what the contracts below check on anndb's side.
+
+//@ func iface:github.com/coreos/etcd/raft.Node.Ready
+//@ props C03 C05
+//@ assume
+//@ pure
+//@ modifies nothing
+//@ func iface:github.com/coreos/etcd/raft.Node.Tick
+//@ props C03 C05
+//@ assume
+//@ modifies nothing
+//@ func iface:github.com/coreos/etcd/raft.Node.Advance
+//@ props C03 C05
+//@ assume
+//@ modifies nothing
+//@ func iface:github.com/coreos/etcd/raft.Node.ApplyConfChange
+//@ props C03 C05 C20
+//@ assume
+//@ ensures [state] ret != nil
+//@ modifies nothing
+//@ func iface:github.com/coreos/etcd/raft.Node.ProposeConfChange
+//@ props C20 C05
+//@ assume
+//@ modifies nothing
+
+// persistence: Save either fails or makes hard state, entries and snapshot durable (Badger atomicity assumed, C06 covers the store)
+//@ func iface:storage/wal.WAL.Save
+//@ props C03 C05
+//@ assume
+//@ modifies nothing
+//@ func iface:storage/wal.WAL.Snapshot
+//@ props C03 C05
+//@ assume
+//@ pure
+//@ modifies nothing
+//@ func iface:storage/wal.WAL.CreateSnapshot
+//@ props C03 C05
+//@ assume
+//@ modifies nothing
+
+//@ func github.com/coreos/etcd/raft.IsEmptySnap
+//@ props C03 C05
+//@ assume
+//@ pure
+//@ ensures [def] ret == (sp.Metadata.Index == 0)
+//@ modifies nothing
+
+//@ func time.NewTicker
+//@ props C03 C05
+//@ assume
+//@ ensures [ticker] ret != nil
+//@ modifies nothing
+
+// sending touches nothing the loop's bookkeeping depends on
+//@ func (*storage/raft.RaftTransport).Send
+//@ props C03 C05
+//@ assume
+//@ modifies nothing
+
+// the registered state-machine callbacks may change anything except the raft group's own bookkeeping
+//@ func field:storage/raft.RaftGroup.processFn
+//@ props C03 C05
+//@ assume
+//@ modifies * except type RaftGroup.raftLeaderId; type RaftGroup.transport; type RaftGroup.raft; type RaftGroup.wal; type RaftGroup.processFn; type RaftGroup.processSnapshotFn; type RaftGroup.snapshotFn; type RaftGroup.ctx; type RaftGroup.log; type RaftGroup.id; type RaftGroup.raftConfState; type RaftTransport.nodeId
+//@ func field:storage/raft.RaftGroup.processSnapshotFn
+//@ props C03 C05
+//@ assume
+//@ modifies * except type RaftGroup.raftLeaderId; type RaftGroup.transport; type RaftGroup.raft; type RaftGroup.wal; type RaftGroup.processFn; type RaftGroup.processSnapshotFn; type RaftGroup.snapshotFn; type RaftGroup.ctx; type RaftGroup.log; type RaftGroup.id; type RaftGroup.raftConfState; type RaftTransport.nodeId
+//@ func field:storage/raft.RaftGroup.snapshotFn
+//@ props C03 C05
+//@ assume
+//@ modifies nothing
+
+//@ func github.com/satori/go.uuid.Equal
+//@ props C05 C20 C03
+//@ assume
+//@ pure
+//@ ensures [eq] ret == (u1 == u2)
+//@ modifies nothing
+
+//@ func (*github.com/coreos/etcd/raft/raftpb.ConfChange).Unmarshal
+//@ props C05 C20 C03
+//@ assume
+//@ modifies fields(m)
+
+//@ spec book(g *RaftGroup) map[uint64]string = g.transport.clusterConn.addresses
+
+// C05: every configuration change that decodes reaches ApplyConfChange exactly once.
+// C20: only the zero group (id = uuid.Nil) touches the address book; an added node is listed under the address carried by the entry.
+//@ func (*storage/raft.RaftGroup).processConfChange
+//@ props C05 C20 C03
+//@ safety C12
+//@ ghost applied int = 0
+//@ at call Node.ApplyConfChange
+//@ set applied = applied + 1
+//@ end
+//@ requires [wf] wfGroup(this) && this.transport.clusterConn != nil && book(this) != nil && this.transport.clusterConn.conns != nil
+//@ requires [conns] forall j uint64 :: has(this.transport.clusterConn.conns, j) ==> this.transport.clusterConn.conns[j] != nil
+//@ ensures [C05 confchange-applied] applied == 1 || (!isnil(ret) && applied == 0)
+//@ ensures [C20 other-groups-untouched] this.id != uuid.Nil ==> forall j uint64 :: has(book(this), j) == old(has(book(this), j)) && book(this)[j] == old(book(this)[j])
+//@ ensures [wf] wfGroup(this)
+//@ modifies this.raftConfState, map(book(this)), map(this.transport.clusterConn.conns)
+
+//@ spec wfGroup(g *RaftGroup) bool = g.transport != nil && !isnil(g.raft) && !isnil(g.wal) && !isnil(g.ctx) && g.log != nil && g.processFn != nil && g.processSnapshotFn != nil
+
+// C03 / C05: the ready loop. Per Ready (ghost state is reset at Advance):
+//   saved      - wal.Save(rd.HardState, rd.Entries, rd.Snapshot) returned nil
+//   sent       - number of transport.Send(rd.Messages) calls
+//   leaderTop  - value of isLeader() at the first test (leaders may send before persisting, raft/doc.go)
+//@ func (*storage/raft.RaftGroup).run
+//@ props C03 C05
+//@ safety C12
+//@ ghost saved int = 0
+//@ ghost sent int = 0
+//@ ghost leaderTests int = 0
+//@ ghost leaderTop int = 0
+//@ at call WAL.Save
+//@ set saved = ite(isnil($ret0), 1, 0)
+//@ end
+//@ at call RaftGroup).isLeader
+//@ set leaderTests = leaderTests + 1
+//@ set leaderTop = ite(leaderTests == 0, ite($ret0, 1, 0), leaderTop)
+//@ end
+//@ at call RaftTransport).Send
+//@ requires [C05 send-after-save] saved == 1 || (leaderTop == 1 && leaderTests == 1)
+//@ set sent = sent + 1
+//@ end
+//@ at call field:storage/raft.RaftGroup.processFn
+//@ requires [C03 apply-after-save] saved == 1
+//@ end
+//@ at call field:storage/raft.RaftGroup.processSnapshotFn
+//@ requires [C03 restore-after-save] saved == 1
+//@ end
+//@ at call RaftGroup).processConfChange
+//@ requires [C03 C05 confchange-after-save] saved == 1
+//@ end
+//@ at call Node.Advance
+//@ requires [C05 advance-last] saved == 1 && sent == 1 && rangeindex + 1 == len(rd.CommittedEntries)
+//@ set saved = 0
+//@ set sent = 0
+//@ set leaderTests = 0
+//@ set leaderTop = 0
+//@ end
+//@ at call RaftGroup).trySnapshot
+//@ requires [C03 snapshot-label] $arg1 == lastAppliedIdx
+//@ end
+//@ at go trySnapshot
+//@ requires [C03 snapshot-same-goroutine] false
+//@ end
+//@ requires [wf] wfGroup(this)
+//@ modifies *
+//@ loop 1
+//@ invariant [between-readys] wfGroup(this) && saved == 0 && sent == 0 && leaderTests == 0 && leaderTop == 0
+//@ loop 2
+//@ invariant [in-ready] wfGroup(this) && saved == 1 && leaderTests == 1 && sent == leaderTop && (leaderTop == 1) == (this.raftLeaderId == this.transport.nodeId) && (leaderTop == 0 || leaderTop == 1) && 0 - 1 <= rangeindex && rangeindex + 1 <= len(rd.CommittedEntries)
+//@ invariant [C03 applied-index] rangeindex >= 0 ==> lastAppliedIdx == entry.Index
